@@ -330,9 +330,12 @@ impl Span {
     {
         #[cfg(feature = "enable")]
         {
-            let mut span = Span::enter_with_parent("", self).with_properties(properties);
+            let mut span = Span::enter_with_parent("", self);
             if let Some(mut inner) = span.inner.take() {
+                // The carrier is taken out of the span before the closure runs: if the closure
+                // panics, nothing is submitted instead of a nameless span.
                 inner.raw_span.raw_kind = RawKind::Properties;
+                inner.add_properties(properties);
                 inner.submit_spans();
             }
         }
